@@ -57,13 +57,17 @@ pub trait Rule: RuleClone + Debug + Send {
     }
 }
 
-/// Whether the text ends in ` (<lowercase word><quantifier>)`, i.e. in
+/// Whether the text ends in `<white space>(<lowercase word><quantifier>)`, i.e. in
 /// something that parsing an expectation could take for its modifier
 fn ends_like_modifier(text: &str) -> bool {
-    let Some(start) = text.rfind(" (") else {
+    let Some(start) = text.rfind('(') else {
         return false;
     };
-    let Some(inner) = text[start + 2..].strip_suffix(')') else {
+    // any white space separates the modifier from the expression (`\s` when parsing)
+    if !text[..start].ends_with(char::is_whitespace) {
+        return false;
+    }
+    let Some(inner) = text[start + 1..].strip_suffix(')') else {
         return false;
     };
     let inner = inner.strip_suffix(['*', '+', '?']).unwrap_or(inner);
